@@ -221,21 +221,23 @@ CLAIMED = {
         "Lean 4 theorems (printer/parser round trips by induction) + regenerated name/dispatch table + text-level correspondence",
         "DESIGN.md §5 C03"),
     "C11": (
-        "Per puzzle (the evidence file lists the status of each of the 26 modules, measured on each run; at the time of writing 25 of 26 have status theorem, shakashaka is model + differential). Kernel-checked: "
+        "Per puzzle (the evidence file lists the status of each module, measured on each run; all 31 modules of cspuz.puzzle -- the 26 "
+        "named in the property plus firefly, magnets, nanro, nurimaze, slalom -- have status theorem). Kernel-checked: "
         "C11_compose (if the program posted by a solve_<puzzle> encodes the rules R -- an answer grid extends to a model of the whole "
         "program incl. hidden variables iff it obeys R -- then for every correct backend the solver reports a solution iff a "
         "rule-obeying grid exists and its decided cells are exactly the cells on which all rule-obeying grids agree), and per puzzle "
         "`Cspuz.C11.<P>.program_iff_rules` + `total` (the Lean model of the posted program encodes an independently written rules "
-        "spec, for all board sizes and clue layouts) for the puzzles whose status is 'theorem'. For EVERY one of the 26 modules "
-        "regardless of proof status: (a) program correspondence -- the program posted by the real solve_<p> (recording Solver "
+        "spec, for all board sizes and clue layouts), the planar puzzles yinyang, castle_wall and shakashaka included. For EVERY module: "
+        "(a) program correspondence -- the program posted by the real solve_<p> (recording Solver "
         "substituted in the module) equals the Lean model's program (declarations, constraint multiset, answer keys) on random small "
-        "instances; (b) rule differential -- real solve_<p> through z3 vs exact facts by brute force over all answer grids with an "
-        "independent plain-Python rule checker. The planar puzzles yinyang and castle_wall are proved (lattice-cycle / ray-parity arguments); shakashaka ("
-        "white areas are rectangles) is not.",
+        "instances and on a 6x9 board and boards with more than 256 cells; (b) rule differential -- real solve_<p> through z3 vs exact "
+        "facts by brute force over all answer grids with an independent plain-Python rule checker; (c) only after (a) broke: "
+        "model-guided search on medium boards (the real report vs what the model's program admits, every difference turned into a "
+        "witness grid judged by the rule checker).",
         "Relative to a correct backend. Trusted: Lean kernel + standard axioms; the rule specs (Spec/PuzzleRules/*.lean) and the Python "
         "rule checkers, written from the published rule texts (adopted readings are marked READING: in the modules: nurikabe needs a "
         "sea cell, aquarium levels per touching cells, empty loop allowed); hand-written program models tied by program equality; "
-        "puzzles without a theorem are covered only by the bounded differential on small boards.",
+        "z3 (harness translation) for the differential and the search.",
         "Lean 4 theorems (composition + per-puzzle encodes-rules) + program-equality correspondence + bounded rule differential",
         "DESIGN.md §5 C11"),
     "C15": (
